@@ -139,6 +139,16 @@ def discharge(ob: Oblig, timeout_ms: int, witness_terms: dict) -> OblResult:
         if c5 == 'unsat':
             status, backend = 'discharged', 'cvc5-1.0.3'
     model = None
+    note = ob.note
+    if status == 'unknown':
+        # refutation attempt: quantified hypotheses replaced by a finite instantiation.
+        # unsat => proved from weaker hypotheses (sound); sat => candidate counter-model only.
+        r2, s2 = ground_attempt(ob, min(timeout_ms, 10000))
+        if r2 == 'unsat':
+            status, backend = 'discharged', backend + '(ground-instantiated hyps)'
+        elif r2 == 'sat':
+            s = s2
+            note = (note + ' ' if note else '') + 'solver: unknown (incomplete quantifiers); candidate model from ground instantiation'
     if status in ('failed', 'unknown'):
         try:
             m = s.model()
@@ -172,7 +182,67 @@ def discharge(ob: Oblig, timeout_ms: int, witness_terms: dict) -> OblResult:
         except Exception:
             size = 0
     return OblResult(ob.name, ob.kind, status, backend, round(time.time() - t0, 4), ob.line,
-                     ob.func, ob.note, model, size)
+                     ob.func, note, model, size)
+
+
+def has_quantifier(e) -> bool:
+    seen = set()
+    todo = [e]
+    while todo:
+        x = todo.pop()
+        if x.get_id() in seen:
+            continue
+        seen.add(x.get_id())
+        if z3.is_quantifier(x):
+            return True
+        todo.extend(x.children())
+    return False
+
+
+def int_consts(e, out: dict):
+    seen = set()
+    todo = [e]
+    while todo:
+        x = todo.pop()
+        if x.get_id() in seen:
+            continue
+        seen.add(x.get_id())
+        if z3.is_quantifier(x):
+            continue
+        if z3.is_const(x) and x.decl().kind() == z3.Z3_OP_UNINTERPRETED and z3.is_int(x):
+            out[x.get_id()] = x
+        todo.extend(x.children())
+
+
+def ground_attempt(ob: Oblig, timeout_ms: int):
+    goal_neg = z3.Not(ob.goal)
+    terms: dict = {}
+    int_consts(ob.goal, terms)
+    for h in ob.hyps[-12:]:
+        if not has_quantifier(h):
+            int_consts(h, terms)
+    cands = [z3.IntVal(0)] + [t for t in terms.values() if t.decl().name().startswith(('k!', 'q!', 'j!', 'idx!'))][:6]
+    cands = cands + [c + 1 for c in cands[1:4]]
+    s = z3.Solver()
+    s.set('timeout', timeout_ms)
+    for a in background_axioms():
+        s.add(a)
+    for h in ob.hyps:
+        if not has_quantifier(h):
+            s.add(h)
+        elif z3.is_quantifier(h) and h.is_forall() and h.num_vars() == 1 and h.var_sort(0) == z3.IntSort():
+            for c in cands:
+                inst = z3.substitute_vars(h.body(), c)
+                if not has_quantifier(inst):
+                    s.add(inst)
+    if has_quantifier(goal_neg):
+        # the negated goal is existential after skolemisation by z3; keep it as it is
+        pass
+    s.add(goal_neg)
+    try:
+        return str(s.check()), s
+    except z3.Z3Exception:
+        return 'unknown', s
 
 
 def decode_list(m, ref_t, heap):
